@@ -44,6 +44,23 @@ func ruleClose1(c *Ctx) {
 						switch nm := p.CalleeName(pf, par); nm {
 						case "sync.Once.Do", "sync.OnceFunc", "sync.OnceValue", "sync.OnceValues":
 							onceN++
+							// the Once and the channel belong to the same object: a Once of
+							// another object may have fired already (the channel is then never
+							// closed) or guard several channels (only the first is closed)
+							if nm == "sync.Once.Do" {
+								if ose, isSel := ast.Unparen(par.Fun).(*ast.SelectorExpr); isSel {
+									if onceSel, isF := ast.Unparen(ose.X).(*ast.SelectorExpr); isF && SelField(pf.Pkg.TypesInfo, onceSel) != nil {
+										if chSel, isC := ast.Unparen(ch).(*ast.SelectorExpr); isC && SelField(info, chSel) != nil {
+											oo, co := accessPath(pf.Pkg.TypesInfo, onceSel.X), accessPath(info, chSel.X)
+											if oo != "" && co != "" && oo != co {
+												c.R.Violate("R-CLOSE1", p.Pos(call), f.Name, construct,
+													"the close is guarded by the sync.Once of a different object ("+exprStr(onceSel)+" guards a channel of "+exprStr(chSel.X)+"): once that Once has fired for any reason this channel is never closed, and the goroutines waiting on it (listener accept loops, knock listeners, the serving goroutine) never end", nil)
+												continue
+											}
+										}
+									}
+								}
+							}
 							c.R.Hold("R-CLOSE1", p.Pos(call), f.Name, construct, "inside "+nm, true)
 							continue
 						}
